@@ -1574,7 +1574,7 @@ void vh_case(vh::Ctx& c) {
     if (c.stage == "lattice-pairs") lat::PairCase(c);
     else if (c.stage == "lattice-progs") lat::ProgramCase(c);
     else if (c.stage == "lattice-touch") lat::TouchCase(c);
-    else if (c.stage == "general") gp::Case(c);
+    else if (c.stage.rfind("general", 0) == 0) gp::Case(c);  // "general", "general-par"
     else c.inconclusive("unknown stage " + c.stage);
   } catch (const std::exception& e) {
     c.violation(std::string("throw:") + e.what(), vh::J().s("what", e.what()).s("stage", c.stage).str());
